@@ -545,6 +545,14 @@ def run(ctx):
                     idx = bnd.lin_op(t["args"][1])
                     goals = [idx.add(ln, -1).add(Lin({}, 1 if last == "remove" else 0))]
                     what = "%s.%s(%s)" % (fn._key(key), last, fn.show(idx))
+                    if last == "remove" and not all(fn.bnd.prove(g, i, "term") for g in goals):
+                        import lockstep
+                        how = lockstep.in_loop(fn, i, key, t["args"][1])
+                        if how is None and t["args"][1]["k"] == "const" and t["args"][1].get("int") is not None:
+                            how = lockstep.after_loop(fn, i, key, t["args"][1]["int"])
+                        if how is not None:
+                            settle(fn, "P5", what, t["line"], i, cls="auto", detail=how)
+                            continue
                 if last in ("windows", "chunks", "chunks_exact", "rchunks") and len(t["args"]) == 2 and t["args"][1]["k"] == "const" \
                         and (t["args"][1].get("int") or 0) >= 1:
                     goals = []          # panics only for a size of 0; the size is the literal %d here
